@@ -7,9 +7,9 @@
    (3) the positions the affinity writer prints (T4) -- joins C18.  Not modelled: operator<<(double) (abstract fmt; realised by
    printf("%.6g") in the check) and the file system; the real binary is compared with the library on every run (K-WRITE).
    Only statements; every proof is `exact <lemma>` (proofs live in the files imported below). *)
-From Coq Require Import List NArith Bool Arith String.
+From Coq Require Import List NArith Bool Arith String ZArith Floats.
 Import ListNotations.
-From MT Require Import Arith SweepModel Layout CliModel CliProofs GenCli GenCliIdx DispatchSpec CliDispatchProofs LayoutProofs.
+From MT Require Import Arith SweepModel Layout CliModel CliProofs GenCli GenCliIdx DispatchSpec CliDispatchProofs LayoutProofs SweepModel GraphModel InitModel CtrlModel MainModel Mt19937 SeededModel CliMain CliMainProofs FmtG.
 
 (* the reader inverts every well-formed rendering *)
 Theorem C13_parse : forall (items : list item) (final_newline : bool),
@@ -94,4 +94,88 @@ Print Assumptions C13_affinity_grid.
 Theorem C13_affinity_grid_assortative : forall K L k a : nat, cxx_writer_idx_ass K L k a = idx_ass K L k a.
 Proof. exact writer_ass_is_idx. Qed.
 Print Assumptions C13_affinity_grid_assortative.
+
+(* END TO END, on the one function that models main() (CliMain.cli_main, extracted and compared with the real binary token by token): *)
+(* for every argument vector whose options parse, every well-formed rendering of every record list as the adjacency file, random initial affinity and a *)
+(* numeric or `random` seed: if the library (as a function of the seed) returns res on the records, the front end writes exactly run_info.dat, w_out.dat, *)
+(* u_out.dat (and v_out.dat iff directed) whose token grids are the serialisation of res -- labelled membership rows, K x K (K when assortative) affinity blocks *)
+Theorem C13_end_to_end : forall (A : Arith float) (stoi : str -> option Z) (fs : str -> option (list byte)) 
+         (now : Z) (tokenize : list byte -> list (list str)) (is_hash : str -> bool)
+         (pnum : str -> option float) (puint : str -> option nat) (fmt fmt_int : float -> str)
+         (fmt_nat : nat -> str) (fmt_N : N -> str) (fmt_Z : Z -> str) (word : nat -> str)
+         (reason_name : reason -> str) (argv : list str) (c : cli_cfg) (items : list item) 
+         (nl : bool) (sd : Z) (res : result float N),
+       parse_options stoi argv = Some c ->
+       c_wfile c = [] ->
+       fs (c_adj c) = Some (render_file items nl) ->
+       Forall item_ok items ->
+       c_seed c = s_random /\ sd = now \/ c_seed c <> s_random /\ stoi (c_seed c) = Some sd ->
+       let starts := flat_map item_src items in
+       let ends := flat_map item_tgt items in
+       let weights := flat_map item_wts items in
+       let nv := get_num_vertices N N.eqb starts ends in
+       let L :=
+         match starts with
+         | [] => 0
+         | _ :: _ => Datatypes.length weights / Datatypes.length starts
+         end in
+       factorize_seeded A N N.eqb N N.to_nat (fun (_ _ : nat) (x : float) => x) 
+         (c_directed c) (c_assort c) false starts ends weights (c_r c) (c_maxit c) 
+         (c_nconv c) nv (c_K c) (zeros float A nv (c_K c))
+         (if c_directed c then zeros float A nv (c_K c) else [])
+         (repeat (zero A) (if c_assort c then c_K c * L else c_K c * c_K c * L)) sd = 
+       Ok float N res ->
+       let best := max_L2 float A (map snd (r_rep float N res)) in
+       let labels := map fmt_N (r_labels float N res) in
+       let head := header fmt_int fmt_nat word best (Datatypes.length (r_rep float N res)) in
+       cli_main A stoi fs now tokenize is_hash pnum puint fmt fmt_int fmt_nat fmt_N fmt_Z word
+         reason_name argv =
+       CliOk (c_out c)
+         ([(f_info, info_rows A fmt fmt_nat fmt_Z word reason_name sd (r_rep float N res));
+           (f_w, head :: affinity_rows float A str fmt fmt_nat word (r_aff float N res) (c_K c) L);
+           (f_u, head :: membership_rows float A str fmt word labels (r_u float N res) nv (c_K c))] ++
+          (if c_directed c
+           then
+            [(f_v, head :: membership_rows float A str fmt word labels (r_v float N res) nv (c_K c))]
+           else [])).
+Proof. exact cli_main_is_library_files. Qed.
+Print Assumptions C13_end_to_end.
+
+(* which files: the in-membership file exactly for directed runs *)
+Theorem C13_files_written : forall (A : Arith float) (stoi : str -> option Z) (fs : str -> option (list byte)) 
+         (now : Z) (tokenize : list byte -> list (list str)) (is_hash : str -> bool)
+         (pnum : str -> option float) (puint : str -> option nat) (fmt fmt_int : float -> str)
+         (fmt_nat : nat -> str) (fmt_N : N -> str) (fmt_Z : Z -> str) (word : nat -> str)
+         (reason_name : reason -> str) (argv : list str) (d : str) (fl : list (str * list (list str))),
+       cli_main A stoi fs now tokenize is_hash pnum puint fmt fmt_int fmt_nat fmt_N fmt_Z word
+         reason_name argv = CliOk d fl ->
+       map fst fl = [f_info; f_w; f_u] ++ (if negb (has argv s_undirected) then [f_v] else []).
+Proof. exact cli_main_files_written. Qed.
+Print Assumptions C13_files_written.
+
+(* the result depends on the argument vector only through, for each of the ten option names, whether it occurs and what follows its first occurrence *)
+Theorem C13_option_order_irrelevant : forall (A : Arith float) (stoi : str -> option Z) (fs : str -> option (list byte)) 
+         (now : Z) (tokenize : list byte -> list (list str)) (is_hash : str -> bool)
+         (pnum : str -> option float) (puint : str -> option nat) (fmt fmt_int : float -> str)
+         (fmt_nat : nat -> str) (fmt_N : N -> str) (fmt_Z : Z -> str) (word : nat -> str)
+         (reason_name : reason -> str) (argv argv' : list str),
+       same_options argv argv' ->
+       cli_main A stoi fs now tokenize is_hash pnum puint fmt fmt_int fmt_nat fmt_N fmt_Z word
+         reason_name argv =
+       cli_main A stoi fs now tokenize is_hash pnum puint fmt fmt_int fmt_nat fmt_N fmt_Z word
+         reason_name argv'.
+Proof. exact cli_main_same_options. Qed.
+Print Assumptions C13_option_order_irrelevant.
+
+(* --o names the directory written to *)
+Theorem C13_output_directory : forall (A : Arith float) (stoi : str -> option Z) (fs : str -> option (list byte)) 
+         (now : Z) (tokenize : list byte -> list (list str)) (is_hash : str -> bool)
+         (pnum : str -> option float) (puint : str -> option nat) (fmt fmt_int : float -> str)
+         (fmt_nat : nat -> str) (fmt_N : N -> str) (fmt_Z : Z -> str) (word : nat -> str)
+         (reason_name : reason -> str) (argv : list str) (d : str) (fl : list (str * list (list str)))
+         (c : cli_cfg),
+       cli_main A stoi fs now tokenize is_hash pnum puint fmt fmt_int fmt_nat fmt_N fmt_Z word
+         reason_name argv = CliOk d fl -> parse_options stoi argv = Some c -> d = c_out c.
+Proof. exact cli_main_outdir. Qed.
+Print Assumptions C13_output_directory.
 
